@@ -225,8 +225,18 @@ def decrypt(case, ctx):
         v = u(case["v"])
         opts = [("y+1", (x1, (y1 + 1) % M.P)), ("y-1", (x1, (y1 - 1) % M.P)), ("neg-y", (x1, M.P - y1)), ("zero", (0, 0)), ("x>=p", (M.P + (v % (gen.R256 - M.P)), y1)),
                 ("y>=p", (x1, M.P + (v % (gen.R256 - M.P)))), ("x=p", (M.P, y1)), ("random", (v % M.P, y1)), ("x+p", (x1 + M.P if x1 + M.P < gen.R256 else x1 ^ 1, y1)),
-                ("swap", (y1, x1)), ("y=0", (x1, 0))]
-        lab, (xx, yy) = opts[sel % len(opts)]
+                ("swap", (y1, x1)), ("y=0", (x1, 0)), ("small-x", None), ("small-x+p", None), ("small-y", None), ("small-y+p", None)]
+        lab, xy = opts[sel % len(opts)]
+        if xy is None:
+            # C1 with a coordinate < 2^256 - p (no nonce is known for such a point; the ciphertext is built with the private key):
+            # the reduced encoding is a valid ciphertext, the same coordinate written as c + p is not a field element
+            sp = M.small_x_point(v) if "-x" in lab else M.small_y_point(v)
+            ct = M.encrypt_to_c1(d, sp, pt)
+            if ct is None:
+                ctx.note("kdf-all-zero"); return
+            c3, c2 = ct
+            xy = (sp[0] + (M.P if lab == "small-x+p" else 0), sp[1] + (M.P if lab == "small-y+p" else 0))
+        xx, yy = xy
         cand = D.enc_ct(xx, yy, c3, c2)
         lab = "c1/" + lab
     elif cls == "c3":
